@@ -11,6 +11,7 @@ enumerates all small graphs inside the model and checks the theorems' conclusion
 import json
 import os
 import random
+import re
 
 import vlib
 import sorterspec as ss
@@ -158,6 +159,25 @@ def lattice_errors(g):
     return e
 
 
+def dangling_only_nodes(g):
+    """blocks that are nodes (not ordered nodes) with a non-empty child array made of out-of-range indices only"""
+    n = len(g["blocks"])
+    return [i for i, b in enumerate(g["blocks"])
+            if (b["kind"] & ss.K_NODE) and not (b["kind"] & ss.K_ORDERED) and b["children"]
+            and all(r != "x" and int(r) >= n for r in b["children"])]
+
+
+def dangling_error(msg, g):
+    """is this error message only about a dangling child index (or the idempotence failure it causes)?"""
+    n = len(g["blocks"])
+    if msg == "sorting an already sorted model changed it" or "lists an out-of-range child" in msg:
+        return True
+    m = re.match(r"node uid (\d+) .*children were", msg)
+    if m:
+        return any(b["uid"] == int(m.group(1)) and any(r != "x" and int(r) >= n for r in b["children"]) for b in g["blocks"])
+    return False
+
+
 class Outcome:
     def __init__(self):
         self.mismatch = None
@@ -233,6 +253,14 @@ def evaluate(case, d0, names, mline, iline, crash):
         if root == 0 and order_applies(g0, names) and len(ids) == len(rshapes) and sorted(ids) != sorted(rshapes) and only_root:
             # the repaired defect: an order that is not a permutation of the root's shape children was applied
             o.known = ("C04-shapeorder-bad-names", "ids %s vs root shape children %s: %s" % (ids, rshapes, e[0]))
+    # known finding (outside refs_in_range, C04_sort_idem_refuted_dangling_ref): OB / FO3 ordering and a node all of
+    # whose child indices are out of range. The first sort empties that node's array, so for the second sort it is
+    # no longer a "node with children" and moves behind the shapes. Only when model and implementation agree and
+    # every error of the case is about the dangling indices.
+    dn = dangling_only_nodes(g0)
+    if "sorting an already sorted model changed it" in e and g0["ob"] and dn and o.mismatch is None and all(dangling_error(x, g0) for x in e):
+        o.known = ("C04-sort-not-idempotent-dangling-child-ob",
+                   "OB/FO3 ordering, node block(s) %s list only out-of-range children: the second sort moved blocks" % dn)
     o.errors = e
     return o
 
@@ -400,7 +428,7 @@ def run(tier, seed, replay=None):
         "correspondence_mismatches": len(mism),
         "spec_failures_on_impl": len(fails),
         "known_findings_hit": {k: len(v) for k, v in rep.known_hits.items()},
-        "unproved": ["sort_idem (sorting a sorted model changes nothing): needs a simulation of the whole traversal under renaming; checked on every sort2 case of the implementation and on every enumerated small graph of the model only",
+        "unproved": ["idempotence beyond C04_sort_idem: the clause 'sorting an already sorted model changes nothing' is proved for PrettySortBlocks on every graph (C04_sort_idem / C04_sort_idem_checked: pretty_sort fuel m = Ok m' -> pretty_sort fuel m' = Ok m') under fewer than 2^32-1 blocks, child references empty or in range (refs_in_range) and no object that is a NiNode and also a NiShape / NiCollisionObject / NiTimeController (node_excl); outside these hypotheses it is refuted in the model (C04_sort_idem_refuted_dangling_ref: OB/FO3 node whose only child index is out of range; C04_sort_idem_refuted_node_controller: an impossible class combination). Not proved, tested on every sort2 / order / save case only: idempotence of SetShapeOrder (non-empty rootShapeOrder) and of Optimize followed by the sort (default_save)",
                      "termination: every theorem is conditional on the run returning Ok (fuel = call depth); since SortCollision marks its parent before descending, reference cycles no longer recurse forever and no generated graph runs out of fuel, but termination itself is not proved"],
         "trusted_base": vlib.BASE_TRUSTED + ["modelled, not verified: the C++ class lattice as one independent bit per dynamic_cast (hypothesis node_shape_excl says no object is both NiNode and NiShape; checked on every dump), std::set<uint32_t> as a duplicate-free list, std::vector / NiBlockRefArray as lists",
                                              "tested, not proved: every structured field the sorter reads is one of the slots GetChildRefs / GetPtrs enumerate (so SetBlockOrder / DeleteBlock rewrite it): compared field by field on every case",
@@ -408,5 +436,6 @@ def run(tier, seed, replay=None):
         "exhaustive": False,
     })
     return rep.finish(cov, ["references are empty or in range (refs_in_range), no object is both a node and a shape (node_shape_excl), fewer than 2^32-1 blocks, the traversal terminates (result Ok; cyclic collision graphs included in the generated cases)",
+                            "sort_idem (C04_sort_idem): additionally no object is both a NiNode and a NiCollisionObject or NiTimeController (node_excl; the dumped class bits of every case satisfy it); proof = equivariance of every routine under block renumbering (C04_traversal_equivariant) + the run on the rebuilt graph repeats the first run and rebuilds nothing (C04_rerun_same_order) + the loops over parentless nodes / leftover blocks assign the identity on the reordered graph (C04_second_run_identity)",
                             "SetShapeOrder: no further hypothesis (any root position, any name list) after the two repairs C04-shapeorder-root-nonzero / C04-shapeorder-bad-names; std::is_permutation is modelled by its specification (true iff a rearrangement)",
                             "Optimize's bounding-sphere update and FinalizeData run before the first dump (outside the property)"])
